@@ -59,6 +59,12 @@ def _last0(name):
     return segs[-1]
 
 
+def _freeze(v):
+    if isinstance(v, (list, tuple)):
+        return tuple(_freeze(x) for x in v)
+    return v
+
+
 class Machine(TreeEval):
     def __init__(self, facts, tree, mem=None, oracle=None, store=None, on_call=None):
         TreeEval.__init__(self, facts, mem=mem, oracle=None)
@@ -159,7 +165,7 @@ class Machine(TreeEval):
         self.requested = []
 
     def snapshot(self):
-        return (tuple(sorted(self.vars.items(), key=repr)), tuple(sorted(((k, tuple(v) if isinstance(v, list) else v) for k, v in self.iters.items()), key=repr)),
+        return (tuple(sorted(self.vars.items(), key=repr)), tuple(sorted(((k, _freeze(v)) for k, v in self.iters.items()), key=repr)),
                 tuple(sorted(self.last.items(), key=repr)), tuple(sorted(self.choices.items(), key=repr)),
                 tuple(sorted(((k, tuple(v)) for k, v in self.memv.items()), key=repr)))
 
@@ -209,6 +215,12 @@ class Machine(TreeEval):
                 new = {}
                 for l, (pre, var) in lv.items():
                     new[var] = self._tryev(pre)
+                    if isinstance(new[var], tuple) and new[var] and new[var][0] == "unk":
+                        src = self._moved_iter(pre, key[1])
+                        if src is not None:
+                            self.iters[("local", key[1], l)] = self.iters[src]
+                            new[var] = ("iterref", ("local", key[1], l))
+                            continue
                     if isinstance(new[var], tuple) and new[var] and new[var][0] == "iter":
                         self.iters[("local", key[1], l)] = list(new[var][1:])
                         new[var] = ("iterref", ("local", key[1], l))
@@ -231,6 +243,22 @@ class Machine(TreeEval):
             self.choices = {k: v for k, v in self.choices.items() if k in self.phis and k not in ins}
             return ("at", key)
         return r
+
+    def _moved_iter(self, e, frid):
+        """The local that holds the iterator an expression merely passes on (`into_iter(moves)`), if it is a known one."""
+        while isinstance(e, tuple) and e:
+            if e[0] in ("ref", "deref"):
+                e = e[1]
+            elif e[0] == "call" and e[2] and _last(e[1]) in ("into_iter", "by_ref", "fuse"):
+                e = e[2][0]
+            else:
+                break
+        src = None
+        if isinstance(e, tuple) and e and e[0] == "var":
+            src = ("local", frid, e[1])
+        elif isinstance(e, tuple) and e and e[0] == "local":
+            src = e
+        return src if src in self.iters else None
 
     def _tryev(self, e):
         try:
@@ -309,11 +337,23 @@ class Machine(TreeEval):
         if self.on_call is not None and self.on_call(name, args, self):
             return
         dl = n[5].get("destl") if len(n) > 5 and isinstance(n[5], dict) else None
-        if dl is not None and last in ("fuse", "split", "bytes", "into_iter", "map", "chars", "iter", "by_ref", "peekable", "rev"):
+        if dl is not None and last in ("fuse", "split", "bytes", "into_iter", "map", "chars", "iter", "by_ref", "peekable", "rev", "enumerate"):
             # an iterator kept in a plain local: its state lives under that local
             v = self._tryev(n[5]["ret"])
             if isinstance(v, tuple) and v and v[0] == "iter":
                 self.iters[dl] = list(v[1:])
+            elif last in ("into_iter", "by_ref", "fuse") and args:
+                # the iterator is moved from another local of the same frame (whose value was clobbered by `&mut` uses)
+                a = args[0]
+                while isinstance(a, tuple) and a and a[0] in ("ref", "deref"):
+                    a = a[1]
+                src = None
+                if isinstance(a, tuple) and a and a[0] == "var":
+                    src = ("local", dl[1], a[1])
+                elif isinstance(a, tuple) and a and a[0] == "local":
+                    src = a
+                if src in self.iters:
+                    self.iters[dl] = self.iters[src]
         if last in ("write_fmt", "write_str", "write_char") and "fmt" in name:
             self.out.append(self.render(args[1]) if last == "write_fmt" else self._text(self.ev(args[1])))
             return
@@ -327,8 +367,18 @@ class Machine(TreeEval):
             return
 
     def _advance(self, key):
-        it = self.iters[key]
+        return self._adv(self.iters[key])
+
+    def _adv(self, it):
         kind = it[0]
+        if kind == "enum":
+            inner = it[1] = list(it[1])
+            v = self._adv(inner)
+            if v[1] == "Some":
+                i = it[2]
+                it[2] = i + 1
+                return ("agg", "Some", (("agg", "tuple", (i, v[2][0])),))
+            return v
         if kind == "seq":
             items, pos = it[1], it[2]
             if pos < len(items):
@@ -408,6 +458,8 @@ class Machine(TreeEval):
     def _display_value(self, ty, v):
         while ty.startswith("&"):
             ty = ty[1:]
+        if isinstance(v, tuple) and v and v[0] == "sym":
+            return "\x02%s\x02" % v[1]
         if ty == "char":
             return chr(v)
         if ty in ("u8", "u16", "u32", "u64", "usize"):
@@ -442,8 +494,18 @@ class Machine(TreeEval):
             raise Unsupported("parameter %s" % (e[2],))
         if k == "str":
             return e
+        if k == "lit":
+            return e[1]
+        if k in ("tbl", "index") and e[1][0] == "named":
+            v = self._str_table(e[1][1], self.ev(e[2]))
+            if v is not None:
+                return v
         if k == "ld":
             place = e[2]
+            if place[0] in ("tbl", "index") and place[1][0] == "named":
+                v = self._str_table(place[1][1], self.ev(place[2]))
+                if v is not None:
+                    return v
             key = show(unstamp(place))
             if key in self.memv:
                 h = self.memv[key]
@@ -466,6 +528,11 @@ class Machine(TreeEval):
                     if not (0 <= i < len(base[1])):
                         raise Panic("index out of bounds")
                     return ord(base[1][i])
+            if place[0] == "deref" and place[1][0] not in ("param",):
+                # a reference produced by a modelled call (an iterator item): the value itself
+                v = self._tryev(place[1])
+                if not (isinstance(v, tuple) and v and v[0] == "unk"):
+                    return v
             if self.mem is not None:
                 return self.mem(place, self)
             raise Unsupported("memory read " + key[:60])
@@ -510,8 +577,11 @@ class Machine(TreeEval):
             if last == "from_residual":
                 v = self.ev(e[2][0])
                 return v
-            if last in ("into_iter", "fuse", "by_ref"):
-                return self.ev(e[2][0])
+            if last == "enumerate" and "Iterator" in name:
+                src = self.ev(e[2][0])
+                if isinstance(src, tuple) and src and src[0] == "iter":
+                    return ("iter", "enum", list(src[1:]), 0)
+                raise Stuck("enumerate over " + repr(src)[:60])
             if last == "map" and "Iterator" in name:
                 src = self.ev(e[2][0])
                 clo = e[2][1]
@@ -548,6 +618,8 @@ class Machine(TreeEval):
                 s = self.ev(e[2][0])
                 if s[0] == "str":
                     return ("bytes", s[1])
+                if s[0] == "sym":
+                    return ("symbytes", s[1])
             if last == "eq" and "str" in name:
                 a, b = self.ev(e[2][0]), self.ev(e[2][1])
                 if a[0] == "str" and b[0] == "str":
@@ -584,6 +656,26 @@ class Machine(TreeEval):
                 if v[1] in ("Some", "Ok"):
                     return self.apply(e[2][1], v[2])
                 return v
+            if last == "map_or" and ("Option" in name or "Result" in name):
+                v = self.ev(e[2][0])
+                if v[1] in ("Some", "Ok"):
+                    return self.apply(e[2][2], v[2])
+                return self.ev(e[2][1])
+            if last in ("copied", "cloned", "iter", "into_iter", "fuse", "by_ref") and len(e[2]) == 1:
+                v = self.ev(e[2][0])
+                if isinstance(v, tuple) and v and v[0] == "symbytes":
+                    return ("iter", "input", v[1], 0, tuple(range(256)) + (None,))
+                if isinstance(v, tuple) and v and v[0] == "bytes":
+                    return ("iter", "seq", tuple(ord(c) for c in v[1]), 0)
+                return v
+            if last in ("max", "min") and len(e[2]) == 2:
+                a, b = self.ev(e[2][0]), self.ev(e[2][1])
+                if isinstance(a, int) and isinstance(b, int):
+                    return max(a, b) if last == "max" else min(a, b)
+            if last in ("saturating_sub", "saturating_add") and len(e[2]) == 2:
+                a, b = self.ev(e[2][0]), self.ev(e[2][1])
+                if isinstance(a, int) and isinstance(b, int):
+                    return max(a - b, 0) if last == "saturating_sub" else a + b
             if last == "ok_or":
                 v = self.ev(e[2][0])
                 if v[1] == "Some":
@@ -632,6 +724,15 @@ class Machine(TreeEval):
             return ("agg", e[2], tuple(self._tryev(x) for x in e[3]))
         if k == "residual":
             return self.ev(e[1])
+        if k == "un" and e[1] == "PtrMetadata":
+            v = self.ev(e[2])
+            if isinstance(v, tuple) and v and v[0] in ("bytes", "str"):
+                return len(v[1]) if v[0] == "bytes" else len(v[1].encode("utf-8"))
+            raise Unsupported("length of %r" % (v,))
+        if k == "len":
+            v = self.ev(e[1])
+            if isinstance(v, tuple) and v and v[0] in ("bytes", "str"):
+                return len(v[1])
         try:
             return TreeEval.ev(self, e)
         except TypeError:
@@ -644,8 +745,33 @@ class Machine(TreeEval):
             fn = self.facts.fns.get(f[1])
             if fn is not None:
                 return run_function(self.facts, fn, {i + 1: a for i, a in enumerate(args)})[0]
+            if any(f[1].startswith(c + "::") for c in ("core", "std", "alloc")) or f[1].startswith("<"):
+                # a std function passed as a value: the same models (and the rule's oracle) as for a direct call
+                return self.ev(("call", f[1], tuple(("lit", a) for a in args)))
             return ("agg", _last(f[1]), tuple(args))     # a tuple-variant constructor used as a function
         return self.call_closure(f, args)
+
+    def _str_table(self, name, i):
+        """Element i of a constant `[&str; N]` (fat pointers with relocations), or None if the table is not one."""
+        try:
+            raw, relocs = self.facts.table_bytes(name)
+        except KeyError:
+            return None
+        if not relocs or len(raw) % 16:
+            return None
+        if not (0 <= i < len(raw) // 16):
+            raise Panic("index out of bounds")
+        for off, target in relocs:
+            if int(off) == 16 * i:
+                n = int.from_bytes(raw[16 * i + 8:16 * i + 16], "little")
+                if isinstance(target, dict) and "alloc" in target:
+                    a = self.facts.allocs.get(str(target["alloc"]))
+                    if a is None:
+                        return None
+                    b = bytes.fromhex(a["bytes"])
+                    o = int(target.get("off", 0))
+                    return ("str", b[o:o + n].decode("utf-8", "replace"))
+        return None
 
     def call_closure(self, clo, args):
         while clo[0] == "ref":
